@@ -23,6 +23,7 @@ REPO = os.environ.get("VERIF_REPO", "/repo")
 HARNESS = os.path.join(ROOT, "harness")
 GOSX = os.path.join(ROOT, "bin", "gosx")
 MOD = "github.com/blinklabs-io/gouroboros"
+REPLAY_TRIES = 4
 
 
 def goenv():
@@ -238,7 +239,10 @@ def run_check(prop, tier, seed, spec, entries, ov, solver, workdir, t0, known):
         for f in (h.get("findings") or []) + (h.get("known_hits") or []):
             lst = items_by_pkg.setdefault(h["_pkg"], [])
             refs.append((h["_pkg"], len(lst), "finding", h, f))
-            lst.append({"harness": h["func"], "model": f["model"], "params": h.get("params") or {}})
+            # a counterexample is replayed several times: where the real run depends on Go's
+            # random choice among ready select cases one replay may take the other branch
+            for _ in range(REPLAY_TRIES):
+                lst.append({"harness": h["func"], "model": f["model"], "params": h.get("params") or {}})
     order = list(range(len(hres)))
     random.Random(seed).shuffle(order)
     for i in order:
@@ -267,6 +271,10 @@ def run_check(prop, tier, seed, spec, entries, ov, solver, workdir, t0, known):
     for pkg, idx, kind, h, x in refs:
         rep = reports[pkg][idx]
         if kind == "finding":
+            for alt in reports[pkg][idx:idx + REPLAY_TRIES]:
+                if reproduced(x, alt):
+                    rep = alt
+                    break
             nrep += 1
             rp = os.path.join(replay_dir, "%s-%d.json" % (h["func"], nrep))
             with open(rp, "w") as f:
